@@ -5,3 +5,4 @@ import CpSpec.Tls
 import CpSpec.Ja3
 import CpSpec.Opp
 import CpSpec.Dns
+import CpSpec.Ssh
